@@ -97,6 +97,28 @@ def targeted(rng, text):
                                    ('<!ENTITY zz "&zz;">', ' zq="&zz;"', "recursive-entity"),
                                    ('<!ENTITY zz SYSTEM "x">', ' zq="&zz;"', "external-entity-in-attvalue")]:
                 out.append(("<!DOCTYPE %s [%s]>" % (root, decl) + text[:m.end()] + use + text[m.end():], why))
+    # a literal opened with one kind of quote and closed with the other (attribute values, the pseudo-attributes of the XML
+    # declaration, entity values, system / public identifiers, defaults): flip ONE of the two delimiters
+    quoted = list(re.finditer(r"=\s*(\"[^\"'<&]*\"|'[^'\"<&]*')|(?:SYSTEM|PUBLIC|ENTITY\s+\S+|CDATA|#FIXED)\s+(\"[^\"'<&]*\"|'[^'\"<&]*')", text))
+    for m in rng.sample(quoted, min(3, len(quoted))):
+        g = 1 if m.group(1) is not None else 2
+        a, b = m.start(g), m.end(g) - 1
+        other = "'" if text[a] == '"' else '"'
+        pos = rng.choice([a, b])
+        out.append((text[:pos] + other + text[pos + 1:], "quote-mismatch"))
+    xd = re.match(r"<\?xml[^?]*\?>", text)
+    if xd:
+        for mm in re.finditer(r"[\"']", xd.group(0)):
+            other = "'" if mm.group(0) == '"' else '"'
+            out.append((text[:mm.start()] + other + text[mm.start() + 1:], "xmldecl-quote-mismatch"))
+    # a default value that refers to an entity declared only LATER in the internal subset (the declaration must precede)
+    if "<!DOCTYPE" not in text and not text.startswith("<?xml"):
+        m = re.match(r"\s*<([A-Za-z_][\w.\-:]*)", text)
+        if m:
+            root = m.group(1)
+            out.append(("<!DOCTYPE %s [<!ATTLIST %s zq CDATA '&zz;'><!ENTITY zz 'v'>]>" % (root, root) + text, "entity-declared-after-default"))
+            out.append(("<!DOCTYPE %s [<!ATTLIST %s zq CDATA #FIXED 'a&zz;'><!ENTITY zz 'v'>]>" % (root, root) + text, "entity-declared-after-default"))
+            out.append(("<!DOCTYPE %s [<!ENTITY za '&zz;'><!ATTLIST %s zq CDATA '&za;'><!ENTITY zz 'v'>]>" % (root, root) + text, "entity-declared-after-default"))
     # unclosed / overlapping
     m = re.search(r"</[^>]*>\s*$", text)
     if m:
